@@ -23,6 +23,8 @@ type c14Case struct {
 	FailAt      int  `json:"fail_at"`
 	Panic       bool `json:"panic"`
 	Parallel    bool `json:"parallel"`
+	// PersistFrom: handler 0 fails for every height >= PersistFrom during the first call (0 = off)
+	PersistFrom uint64 `json:"persist_from,omitempty"`
 }
 
 var handlerMu sync.Mutex // handler records are appended under this lock in the parallel path
@@ -37,6 +39,9 @@ func c14Run(t *testing.T, run *vk.Run, c c14Case, pre *preState) {
 		}
 	}
 	fault := "none"
+	if c.PersistFrom > 0 {
+		fault = "persistent-error"
+	}
 	if c.FailAt > 0 {
 		fault = fmt.Sprintf("error@h%d", c.FailHandler)
 		if c.Panic {
@@ -59,6 +64,9 @@ func c14Run(t *testing.T, run *vk.Run, c c14Case, pre *preState) {
 			if c.FailAt > 0 && i == c.FailHandler {
 				// arm the fault only now: invocation numbers count from this DeleteRange call
 				h.FailAt, h.Panic = c.FailAt, c.Panic
+			}
+			if c.PersistFrom > 0 && i == 0 {
+				h.FailFromHeight = c.PersistFrom
 			}
 		}
 		err, pan := w.Apply(Op{K: "delete", From: c.From, To: c.To})
@@ -84,6 +92,10 @@ func c14Run(t *testing.T, run *vk.Run, c c14Case, pre *preState) {
 			}
 		}
 		run.Distinct(fmt.Sprintf("%s|removed=%d|err=%v", feat, len(removed), err != nil))
+		if c.PersistFrom > 0 {
+			c14Persistent(w, c, pre, hs, o, err, removed, viol)
+			return
+		}
 		if c.FailAt == 0 || failedAt == 0 {
 			if err != nil {
 				viol("valid-delete-failed", "no handler failed but DeleteRange returned %v", err)
@@ -180,6 +192,69 @@ func c14Run(t *testing.T, run *vk.Run, c c14Case, pre *preState) {
 	})
 }
 
+// c14Persistent: handler 0 rejected every height >= PersistFrom; nothing of that region may be
+// removed, the error is surfaced, and after the handler recovers a tail-side retry from the
+// reported Tail re-invokes the handlers and completes.
+func c14Persistent(w *World, c c14Case, pre *preState, hs []*handlerRec, o Obs, err error, removed map[uint64]bool, viol func(clause, format string, a ...any)) {
+	n := uint64(c.Cfg.N)
+	kind := rangeKind(pre.head, pre.tail, c.From, c.To)
+	if err == nil {
+		viol("handler-error-swallowed", "handler rejected every height >= %d but DeleteRange returned nil", c.PersistFrom)
+	}
+	for h := range removed {
+		if h >= c.PersistFrom {
+			viol("removed-despite-handler-failure", "handler rejected height %d but it is no longer readable", h)
+		}
+		okCalls := 0
+		for _, call := range hs[0].Calls {
+			if call.Height == h && !call.Failed {
+				okCalls++
+			}
+		}
+		if okCalls != 1 {
+			viol("handler-call-count", "height %d was removed but handler 0 returned nil for it %d times", h, okCalls)
+		}
+	}
+	if kind != "prefix" && kind != "whole" {
+		return
+	}
+	if o.TailErr != "" {
+		viol("retry-impossible", "after the failed delete Tail() fails with %s", o.TailErr)
+		return
+	}
+	if o.Tail > c.PersistFrom {
+		viol("tail-moved-past-failed-height", "handler rejected heights >= %d but Tail is now %d", c.PersistFrom, o.Tail)
+		return
+	}
+	hs[0].FailFromHeight = 0
+	before := len(hs[0].Calls)
+	rerr, rpan := w.Apply(Op{K: "delete", From: o.Tail, To: c.To})
+	if rpan != "" || rerr != nil {
+		viol("retry-fails", "retry DeleteRange(%d,%d) after the handler recovered: err=%v panic=%s", o.Tail, c.To, rerr, rpan)
+		return
+	}
+	o2 := w.Observe()
+	for h := c.From; h < c.To && h <= n; h++ {
+		if h >= 1 && (o2.ByHeight[h] == "ok" || o2.ByHash[h] == "ok") {
+			viol("retry-incomplete", "height %d still readable after the retried deletion (Tail was %d, rejected from %d)", h, o.Tail, c.PersistFrom)
+		}
+	}
+	for h := c.PersistFrom; h < c.To && h <= n; h++ {
+		if !pre.model[h] {
+			continue
+		}
+		again := 0
+		for _, call := range hs[0].Calls[before:] {
+			if call.Height == h {
+				again++
+			}
+		}
+		if again != 1 {
+			viol("retry-handler-call-count", "retry called handler 0 %d times for the previously rejected height %d", again, h)
+		}
+	}
+}
+
 func TestC14(t *testing.T) {
 	run := vk.NewRun("C14", "fault_enumeration")
 	defer run.Finish()
@@ -246,6 +321,14 @@ func TestC14(t *testing.T) {
 							base := c14Case{Cfg: cfg, Hist: hist, From: p[0], To: p[1], Handlers: nh, Parallel: parallel}
 							c14Run(t, run, base, pre)
 							run.AddEval(1)
+							if nh == 1 && width >= 3 {
+								for pf := p[0] + 1; pf <= p[0]+2 && pf+1 < p[1]; pf++ {
+									pc := base
+									pc.PersistFrom = pf
+									c14Run(t, run, pc, pre)
+									run.AddEval(1)
+								}
+							}
 							for fh := 0; fh < nh; fh++ {
 								for k := 1; k <= width; k++ {
 									for _, pn := range []bool{false, true} {
